@@ -49,8 +49,13 @@ def mk_cfg(cfg, fc, order=None):
                          creator_info=cfg.get('creator'))
 
 
+_shared_builder = Builder()
+
+
 def build(cfg, fc, order=None):
-    return Builder().build(mk_cfg(cfg, fc, order))
+    # one Builder instance serves every build of the worker process (a Builder is reusable by its API); the history
+    # checks (C12) also use a fresh instance per build
+    return _shared_builder.build(mk_cfg(cfg, fc, order))
 
 
 def files_obs(res):
